@@ -606,9 +606,9 @@ class ApiEpisodes(Batch):
 
 def gen_pair(seed, pair="dc"):
     r = R.stream(seed, "config")
-    dc = gen_cache(r, True, p_enable=1.0 if pair == "dc" else 0.4)
+    dc = gen_cache(r, True, p_enable=1.0 if pair in ("dc", "modes-dc") else 0.4)
     ic = gen_cache(r, False, p_enable=1.0 if pair == "ic" else 0.25)
-    if pair == "dc":
+    if pair in ("dc", "modes-dc"):
         dc["enable"] = True
     if pair == "ic":
         ic["enable"] = True
@@ -648,6 +648,7 @@ _PAIR = {
     "dc": ("C03", "off", "on", "with-cache"),
     "ic": ("C11", "off", "on", "with-instruction-cache"),
     "modes": ("C02", "single", "five", "between-modes"),
+    "modes-dc": ("C09", "single", "five", "between-modes"),
 }
 
 
@@ -669,13 +670,13 @@ def run_pair(trace, prop):
         sa["dc"]["enable"] = False
     elif pair == "ic":
         sa["ic"]["enable"] = False
-    else:
+    else:  # "modes", "modes-dc"
         sa["mode"], sb["mode"] = "single_stage_pipeline", "five_stage_pipeline"
         low = text.lower()
         if any(t in low for t in ("csr", "fence", "ebreak")):
             res.discarded = "CSR / FENCE / EBREAK are outside the claim for five-stage mode"
             return res
-    shown = {"dc": st["dc"], "ic": st["ic"], "mode": st["mode"] if pair != "modes" else "both"}
+    shown = {"dc": st["dc"], "ic": st["ic"], "mode": st["mode"] if not pair.startswith("modes") else "both"}
     sims = {}
     try:
         for name, s_ in ((A, sa), (B, sb)):
@@ -697,9 +698,9 @@ def run_pair(trace, prop):
         except Exception as e:  # noqa: BLE001
             out[name] = ["load-error", R.errname(e), getattr(e, "line_number", None)]
     hs.add("load", out[A], out[B])
-    if out[A] != out[B]:
+    if out[A] != out[B] and pair != "modes-dc":
         res.violate(P, "load-differs-" + tag, expected=out[A], got=out[B], settings=shown)
-    if out[A][0] != "loaded" or res.violations:
+    if out[A][0] != "loaded" or out[B][0] != "loaded" or res.violations:
         res.probes["text does not load (nothing to compare)"] += 1
         res.digest = hs.hexdigest()
         return res
@@ -737,6 +738,34 @@ def run_pair(trace, prop):
         return res
     if a["done"] is False:
         res.probes["text does not terminate within the step cap (nothing to compare)"] += 1
+        res.digest = hs.hexdigest()
+        return res
+    if pair == "modes-dc":
+        # C09, program clause: the data-cache counters are identical in both modes
+        def counters(sim):
+            m = sim.state.memory
+            return [m.hits, m.accesses, bool(m.last_was_hit)]
+
+        try:
+            ca, cb = counters(sims[A]), counters(sims[B])
+        except Exception as e:  # noqa: BLE001
+            res.violate(P, "counters-unreadable", got=R.errname(e), settings=shown)
+            res.digest = hs.hexdigest()
+            return res
+        hs.add("counters", ca, cb)
+        if a["error"] or b["error"] or b["done"] is not True:
+            # a faulting access is outside the accounting claim (it may or may not have been counted before it was
+            # rejected: one is tolerated); whether both modes fault alike is C02's business
+            if a["error"] and b["error"] and a["error"][1] == b["error"][1]:
+                if abs(ca[0] - cb[0]) > 1 or abs(ca[1] - cb[1]) > 1:
+                    res.violate(P, "counters-differ-between-modes-at-fault", expected=ca, got=cb, settings=shown)
+                res.probes["assembled text: both modes faulted at the same instruction (counters compared)"] += 1
+        elif ca != cb:
+            res.violate(P, "counters-differ-between-modes", expected=ca, got=cb, settings=shown)
+        else:
+            res.probes["assembled text: data-cache counters identical in both modes"] += 1
+            if ca[1] >= 2:
+                res.probes["assembled text with >= 2 counted accesses compared across modes"] += 1
         res.digest = hs.hexdigest()
         return res
     keys = ["regs", "output", "exit_code"]
